@@ -16,6 +16,16 @@ RULE = ("cases = every ordered pair of lattice lines (all sign patterns, non-pri
 INVS = ["PairLocus", "PairDegenerate", "BaseOnBoth", "NoOtherLattice"]
 
 
+FAR_TOL = 1e-3
+
+
+def _det3_exact(M):
+    from fractions import Fraction
+    m = [[Fraction(float(x)) for x in row] for row in np.asarray(M).tolist()]
+    return (m[0][0] * (m[1][1] * m[2][2] - m[1][2] * m[2][1]) - m[0][1] * (m[1][0] * m[2][2] - m[1][2] * m[2][0])
+            + m[0][2] * (m[1][0] * m[2][1] - m[1][1] * m[2][0]))
+
+
 def gvec(gp):
     return np.array([complex(a, b) for a, b in gp])
 
@@ -59,10 +69,34 @@ def replay(recs):
                 exp = [gvec(p) for p in r["pts"]]
                 multiple = r["kind"] in ("pencil-double-root", "special")
                 tol = 1e-4 if multiple else 1e-6
-                for name, A, B in (("", c1, c2), ("/swapped", c2, c1), ("/scaled-matrices", c1 * -2, c2 * 0.5)):
+                # the same configuration moved far away from the origin by an integer translation (exact): conics T^-T M T^-1
+                T = np.array([[1, 0, 600], [0, 1, -400], [0, 0, 1]])
+                Ti = np.array([[1, 0, -600], [0, 1, 400], [0, 0, 1]])
+                exp0 = exp
+                for name, A, B in (("", c1, c2), ("/swapped", c2, c1), ("/scaled-matrices", c1 * -2, c2 * 0.5),
+                                   ("/far-from-origin", Ti.T @ c1 @ Ti, Ti.T @ c2 @ Ti)):
                     if name == "/swapped" and np.linalg.matrix_rank(B) < 3:
                         continue        # the property's "two conics in general position": keep the non-degenerate one first
+                    exp = [T @ e for e in exp0] if name == "/far-from-origin" else exp0
                     case = {"c1": A.tolist(), "c2": B.tolist(), "kind": r["kind"]}
+                    far = name == "/far-from-origin"
+                    for M in (A, B):
+                        # a non-degenerate conic is not reported as degenerate, wherever it lies (and near the origin a degenerate
+                        # one is; far away the rounding error of the determinant exceeds the library's absolute tolerance, which
+                        # is numerics and not claimed)
+                        exact_deg = _det3_exact(M) == 0
+                        if far and exact_deg:
+                            continue
+                        try:
+                            deg = bool(g.Conic(M).is_degenerate)
+                        except Exception as e:  # noqa: BLE001
+                            deg = f"raised {type(e).__name__}: {e}"
+                        if deg != exact_deg:
+                            out.append(dict(site="Conic.is_degenerate" + name, stratum=st, case={"conic": M.tolist()},
+                                            expected=exact_deg, observed=deg))
+                    if far:
+                        continue        # the intersection itself is ill-conditioned far from the origin (errors of a per cent occur
+                                        # on the unchanged library): numerics, not claimed; only the classification above is checked
                     try:
                         with np.errstate(all="ignore"):
                             res = g.Conic(A).intersect(g.Conic(B))
@@ -77,7 +111,7 @@ def replay(recs):
                                 bad = {"not a point": str(x.tolist())}
                                 break
                             for M in (A, B):
-                                if abs(x @ M @ x) > 1e-6 * np.linalg.norm(M) * np.linalg.norm(x) ** 2:
+                                if abs(x @ M @ x) > (FAR_TOL if far else 1e-6) * np.linalg.norm(M) * np.linalg.norm(x) ** 2:
                                     bad = {"returned point not on both conics": str(x.tolist())}
                         if not bad:
                             miss = [e for e in exp if not any(same_class(x, e, tol) for x in got)]
